@@ -132,7 +132,7 @@ def episode(sim, p, ep):
                 elif k <= 5:
                     prog.append(("recv_stderr", (1, 7, 100)[sim.choose(3)]))
                 elif k == 6:
-                    prog.append(("combine",))
+                    prog.append(("combine",) if sim.choose(3) else ("uncombine",))
                 else:
                     prog.append(("timeout", (0.0, 0.01, 0.3)[sim.choose(3)]))
             rprogs.append(prog)
@@ -157,6 +157,8 @@ def episode(sim, p, ep):
                             ch.recv_stderr(op[1])
                     elif op[0] == "combine":
                         ch.set_combine_stderr(True)
+                    elif op[0] == "uncombine":
+                        ch.set_combine_stderr(False)
                     else:
                         ch.settimeout(op[1])
                 except socket.timeout:
